@@ -313,7 +313,7 @@ func c19Ranges(p *Prog, r *Report) {
 			v := e.Args[0]
 			okv := strings.TrimSuffix(v, "#0") + "#1"
 			dom := map[string][]int64{v: {-2, -1, 0, 1, 2, 3}, okv: {1}}
-			res := ComparePred(e.In.Block(), dom, []string{`arg1 == "` + opt + `"`, okv, "*== ErrBadOption"}, func(env map[string]int64) bool { return env[v] >= min })
+			res := ComparePred(predBlock(e), dom, []string{`arg1 == "` + opt + `"`, okv, "*== ErrBadOption"}, func(env map[string]int64) bool { return env[v] >= min })
 			key := fname + "/" + opt
 			switch {
 			case res.Undec != "":
